@@ -129,7 +129,7 @@ def cases(run):
 
 def main(run):
     run.regen()
-    run.prove()
+    run.prove(extra_targets=["proofs/Pinned_comm.vo"])
     model_ok = run.build_model()
     run.run_findings()
     if model_ok:
